@@ -82,6 +82,13 @@ def mkCell (m : Table) (wc : Char → Int) (s : Text) (style : Text) : Cell :=
     { char := v, style := style', width := cwidth wc v }
   | none => { char := s, style := style, width := cwidth wc s }
 
+/-- `get_display_width(text)` (layout/screen.py): like `get_cwidth`, but control characters count
+    with the width of their display string.  `printable` = `str.isprintable` per character (the
+    fast path `text.isprintable()` returns `get_cwidth(text)` without consulting the table). -/
+def displayWidth (m : Table) (wc : Char → Int) (printable : Char → Bool) (t : Text) : Nat :=
+  if t.all printable then cwidth wc t
+  else (t.map fun c => cwidth wc ((lookup m [c]).getD [c])).sum
+
 /-- `Vt100_Output.write(data)`: `data.replace("\x1b", "?")` -/
 def safeWrite (t : Text) : Text := t.map fun c => if c = ESC then '?' else c
 
